@@ -65,6 +65,12 @@ AlphaMultiT == AlphaOf([Query |-> {"on", "lo", "s"}])
 OKinds == {[o |-> "raise"], [o |-> "null"], [o |-> "len", n |-> 1]}
 OKindsRaise == {[o |-> "raise"]}
 VarValsSmall == [ v |-> {Bool(TRUE), Bool(FALSE)}, w |-> {Bool(FALSE)}, n |-> {Int(3)}, m |-> {Int(4)}, x |-> {Str("xs")}, y |-> {Int(5)} ]
+AlphaSub == AlphaOf([Subscription |-> {"ev", "evs"}, T |-> {"s", "sn"}])
+AlphaSub3 == AlphaOf([Subscription |-> {"ev"}, T |-> {"sn"}])
+AlphaSub2 == AlphaOf([Subscription |-> {"ev"}, T |-> {"s", "o"}])
+ArgOptsSub == [ f |-> {<<>>}, g |-> {<<>>}, ev |-> {<<>>, <<ArgV("a", Lit("var", "m"))>>, <<ArgV("b", Lit("str", "q")), ArgV("a", Lit("int", 1))>>} ]
+EvKinds == {[o |-> "raise"], [o |-> "null"], [o |-> "exc"]}
+EvKinds2 == {[o |-> "raise"], [o |-> "null"]}
 AllFieldNames == UNION {DOMAIN TypesExec[tn].fields : tn \in DOMAIN TypesExec}
 SomeFieldNames == {"o", "sn", "m2", "m3", "lnn"}
 AlphaMut == AlphaOf([Mutation |-> {"m1", "m3", "ml"}, T |-> {"s", "o"}])
